@@ -74,6 +74,10 @@ func genC06Op(t *rapid.T) c06Op {
 		return c06Op{Op: "plain", Msg: &m, NewCtx: rapid.Bool().Draw(t, "ignored_flag")}
 	case k == 1 || k == 2:
 		return c06Op{Op: "jump", UL: rapid.SampledFrom(jumpTargets).Draw(t, "ul"), DL: genCount24(t, "dl")}
+	case k == 4:
+		// an attempt that cannot succeed: a message value with neither a 5GMM nor a 5GSM body, or of a type the codec does
+		// not know. Nothing is sent, so nothing may have been counted
+		return c06Op{Op: "refused", HT: uint8(rapid.IntRange(1, 2).Draw(t, "ht_refused")), UL: uint32(rapid.IntRange(0, 1).Draw(t, "refused_kind"))}
 	case k == 3:
 		return c06Op{Op: "rekey", Enc: gen128(t, "enc"), Int: gen128(t, "int"), EA: uint8(rapid.IntRange(0, 2).Draw(t, "ea")), IA: uint8(rapid.IntRange(1, 2).Draw(t, "ia"))}
 	}
@@ -197,6 +201,34 @@ func c06Oracle0(c c06Case) (v ev.Verdict) {
 			pendingRekey = true
 			cls["op:rekey"] = true
 			cls[fmt.Sprintf("alg NIA%d/NEA%d", op.IA, op.EA)] = true
+		case "refused":
+			if pendingRekey {
+				continue
+			}
+			m := nas.NewMessage()
+			if op.UL == 1 {
+				m.GmmMessage = nas.NewGmmMessage()
+				m.GmmHeader.SetMessageType(0x7f) // not a 5GMM message type
+			}
+			ulBefore, dlBefore := ue.ULCount.Get(), ue.DLCount.Get()
+			var out []byte
+			var eerr error
+			if e, site := ev.Guard(func() error { out, eerr = tglib.NASEncode(ue, m, true, false); return nil }); site != "" {
+				return fail(i, "refused:panic:"+site, "NASEncode of a message without a body panicked: %v", e)
+			}
+			if eerr == nil {
+				// the library found something to send after all: outside what this operation is about
+				_ = out
+				v.Skip = true
+				return v
+			}
+			if g := ue.ULCount.Get(); g != ulBefore {
+				return fail(i, "count-consumed-by-a-refused-message", "NASEncode refused the message (%v) and nothing was sent, yet the UL NAS COUNT went from %#06x to %#06x", eerr, ulBefore, g)
+			}
+			if g := ue.DLCount.Get(); g != dlBefore {
+				return fail(i, "dlcount-changed-by-send", "a refused NASEncode changed the DL NAS COUNT from %#06x to %#06x", dlBefore, g)
+			}
+			cls["op:refused"] = true
 		case "recv":
 			if op.HT < 1 || op.HT > 4 || pendingRekey {
 				// (after a re-keying the UE first has to take the new context into use with its next uplink message)
